@@ -384,7 +384,7 @@ def rule_mode_parameter_only(ctx, modname="partitura.score", param="musical_beat
     ctx.ok(rule, f"{n} function(s) taking `{param}` do not read self.{field}")
 
 
-def rule_statement_order_siblings(ctx, q="partitura.io.importkern:element_parsing", table="line2pos", cursor="current_tl_pos", floor=2):
+def rule_statement_order_siblings(ctx, q="partitura.io.importkern:element_parsing", table="line2pos", cursor="current_tl_pos", floor=1):
     """ORDER-sib: the position table records where a line *starts*: in every branch that both records the line and advances
     the cursor, the record comes first."""
     rule = "ORDER-sib"
@@ -454,3 +454,119 @@ def rule_parts_list_complete(ctx, q="partitura.score:Score.__init__", source="it
         ctx.check(ok, rule, f"{q}:self.parts", func=f, node=s, construct="parts-list-not-complete",
                   msg=f"`self.parts = {norm(s.value)[:70]}` is not the plain list of {source}(...): parts can be dropped or merged (a dict keyed by "
                       f"`id` keeps one of two parts that share an id), and everything that reads score.parts (merge_parts, note_array) loses their notes")
+
+
+def rule_collections_unbounded(ctx, cls_q="partitura.score:Part", floor=6):
+    """COLL-whole: the collection properties of a part list the whole time line."""
+    rule = "COLL-whole"
+    ctx.rule(rule, "every property of Part that returns the objects of a class (notes, notes_tied, rests, measures, ...) enumerates them with "
+                   "self.iter_all(<Class>, ...) without a start or end bound: iter_all's end bound is exclusive, so a bound at the last "
+                   "time point drops the objects that start there (trailing grace notes)")
+    ci = ctx.prog.classes.get(cls_q)
+    if ci is None:
+        raise AnalysisError(rule, cls_q, "class not found")
+    n = 0
+    for name, m in ci.methods.items():
+        if not m.is_property:
+            continue
+        calls = [c for c in own_nodes(m.node) if isinstance(c, ast.Call) and norm(c.func) == "self.iter_all"]
+        if len(calls) != 1 or len([s for s in m.node.body if not (isinstance(s, ast.Expr) and isinstance(s.value, ast.Constant))]) > 2:
+            continue
+        c = calls[0]
+        n += 1
+        ctx.touch(m)
+        bounded = len(c.args) > 1 or any(k.arg in ("start", "end") for k in c.keywords)
+        ctx.check(not bounded, rule, f"{m.qname}", func=m, node=c, construct=f"bounded-collection:{name}",
+                  msg=f"Part.{name} enumerates `{norm(c)[:70]}` with a time bound: objects starting at the (exclusive) end bound are left "
+                      f"out, so whatever works through Part.{name} (transposition, exports, note arrays) silently skips them")
+    ctx.floor(rule, "collection properties of Part", n, floor)
+
+
+def rule_octave_from_letter(ctx, q="partitura.musicanalysis.pitch_spelling:p2pn"):
+    """OCT-letter: the octave of a spelled pitch belongs to its letter (B#4 sounds C5): it is computed from the morphetic pitch."""
+    rule = "OCT-letter"
+    ctx.rule(rule, "p2pn returns (step, alter, octave) with step and octave computed from the morphetic pitch only and the alteration from "
+                   "both: an octave taken from the chromatic pitch puts B# / Cb one octave off, and the spelled note no longer sounds the input pitch")
+    from .extra import depends_on, local_defs
+    f = ctx.prog.func(q, rule)
+    ctx.touch(f)
+    defs = local_defs(f)
+    rets = [r for r in own_nodes(f.node) if isinstance(r, ast.Return) and isinstance(r.value, ast.Tuple) and len(r.value.elts) == 3]
+    ctx.require(len(rets) >= 1, rule, q, "return of (step, alter, octave) not found")
+    chrom, morph = f.params[0], f.params[1]
+    for r in rets:
+        step, alter, octv = r.value.elts
+        d_oct = depends_on(octv, defs, depth=6)
+        d_step = depends_on(step, defs, depth=6)
+        d_alt = depends_on(alter, defs, depth=6)
+        ctx.check(morph in d_oct and chrom not in d_oct, rule, "octave from the morphetic pitch", func=f, node=r, construct="octave-from-chromatic-pitch",
+                  msg=f"the returned octave `{norm(octv)}` depends on {sorted(d_oct & {chrom, morph})}: it must follow the letter "
+                      f"(`{morph}`) alone — with the chromatic pitch B#4 (MIDI 72) is spelled B#5, which sounds 84")
+        ctx.check(morph in d_step and chrom not in d_step, rule, "step from the morphetic pitch", func=f, node=r, construct="step-from-chromatic-pitch",
+                  msg=f"the returned step `{norm(step)}` must be a function of `{morph}` alone")
+        ctx.check(morph in d_alt and chrom in d_alt, rule, "alteration from both", func=f, node=r, construct="alter-not-from-both",
+                  msg=f"the returned alteration `{norm(alter)}` must depend on both `{chrom}` and `{morph}`")
+
+
+def rule_label_selects_matches(ctx, q="partitura.musicanalysis.performance_codec:get_matched_notes"):
+    """LABEL-match: the matched-note table contains the alignment's matches, nothing else."""
+    rule = "LABEL-match"
+    ctx.rule(rule, "get_matched_notes pairs an alignment entry only under the test `<entry>['label'] == 'match'` (an equality with the "
+                   "literal, on every path to the pairing): ornaments, insertions and deletions are never paired")
+    from .extra import _path_conditions
+    f = ctx.prog.func(q, rule)
+    ctx.touch(f)
+    apps = [c for c in own_nodes(f.node) if isinstance(c, ast.Call) and isinstance(c.func, ast.Attribute) and c.func.attr == "append"
+            and c.args and isinstance(c.args[0], ast.Tuple) and len(c.args[0].elts) == 2]
+    ctx.require(len(apps) >= 1, rule, q, "pairing `<list>.append((score index, performance index))` not found")
+    for a in apps:
+        import re as _re
+        texts = sorted(_path_conditions(a, f.node))
+        ok = any(_re.fullmatch(r"""[\w.]+\[['"]label['"]\] == ['"]match['"]""", t) for t in texts)
+        ctx.check(ok, rule, f"{q}:pairing", func=f, node=a, construct="pairing-not-under-label-match",
+                  msg=f"`{norm(a)[:50]}` is reached under {texts[:3]} — not under `['label'] == 'match'`: entries with another label "
+                      f"(ornament) are paired as matches and both time maps get points that are not matched onsets")
+
+
+def rule_integer_accumulators(ctx, modnames: List[str]):
+    """INT-acc: a histogram of durations is not kept in an integer array."""
+    rule = "INT-acc"
+    ctx.rule(rule, "an array created with an integer dtype (np.zeros/ones/empty/full(..., dtype=int...)) never receives (item store or "
+                   "augmented item store) a value computed from a duration or onset column: the store would silently truncate it")
+    from .extra import depends_on, local_defs
+    n = 0
+    for m in modnames:
+        for f in ctx.prog.functions_in(m):
+            defs = local_defs(f)
+            ints = {}
+            for a in own_nodes(f.node):
+                if isinstance(a, ast.Assign) and len(a.targets) == 1 and isinstance(a.targets[0], ast.Name) and isinstance(a.value, ast.Call) \
+                        and norm(a.value.func).split(".")[-1] in ("zeros", "ones", "empty", "full", "zeros_like", "array"):
+                    dt = next((k.value for k in a.value.keywords if k.arg == "dtype"), None)
+                    if dt is not None and (norm(dt) in ("int", "np.int32", "np.int64", "np.int_", "numpy.int64", "np.intp") or
+                                           (isinstance(dt, ast.Constant) and isinstance(dt.value, str) and dt.value.lstrip("<>=|")[:1] in ("i", "u"))):
+                        ints[a.targets[0].id] = a
+            if not ints:
+                continue
+            for s in own_nodes(f.node):
+                tgt, val = None, None
+                if isinstance(s, ast.Assign) and len(s.targets) == 1 and isinstance(s.targets[0], ast.Subscript):
+                    tgt, val = s.targets[0], s.value
+                elif isinstance(s, ast.AugAssign) and isinstance(s.target, ast.Subscript):
+                    tgt, val = s.target, s.value
+                if tgt is None or not (isinstance(tgt.value, ast.Name) and tgt.value.id in ints):
+                    continue
+                n += 1
+                ctx.touch(f)
+                deps = depends_on(val, defs, depth=5)
+                texts = {x for x in deps} | {c.value for c in ast.walk(val) if isinstance(c, ast.Constant) and isinstance(c.value, str)}
+                for nm in list(deps):
+                    for d in defs.get(nm, []):
+                        texts |= {c.value for c in ast.walk(d) if isinstance(c, ast.Constant) and isinstance(c.value, str)}
+                        texts |= {x.id for x in ast.walk(d) if isinstance(x, ast.Name)}
+                timey = sorted(t for t in texts if isinstance(t, str) and any(k in t.lower() for k in ("duration", "onset", "offset")))
+                rounded = isinstance(val, ast.Call) and norm(val.func).split(".")[-1] in ("int", "round", "rint", "len", "count_nonzero")
+                ctx.check(not timey or rounded, rule, f"{f.qname}:{tgt.value.id}", func=f, node=s, construct=f"float-into-int-array:{tgt.value.id}",
+                          msg=f"`{norm(s)[:70]}` stores a value computed from {timey[:3]} into `{tgt.value.id}`, created with an integer dtype: "
+                              f"fractional durations are truncated (a total below 1 becomes 0), so the result changes when all durations are rescaled")
+    ctx.ok(rule, f"{n} store(s) into integer-typed arrays checked in {len(modnames)} module(s)")
